@@ -572,9 +572,6 @@ def check_service(run: ServiceRun) -> tuple[list[dict[str, Any]], dict[str, int]
         inc("nested_owner")
     else:
         inc("root_owner")
-    inc(f"factory_started_via_{prog.get('factory_via', 'method')}")
-    if prog["handler"] is not None and prog.get("handler_form") == "falsy_object":
-        inc("handler_is_a_falsy_callable_object")
     return V, c
 
 
